@@ -66,7 +66,7 @@ class FieldData:
     elif self.virtual:
       raise gfapy.RuntimeError("Virtual lines do not have tags")
     elif (self.vlevel == 0) or self._is_valid_custom_tagname(fieldname):
-      if hasattr(self.__class__, fieldname):
+      if hasattr(self.__class__, fieldname) or fieldname in self.__dict__:
         raise gfapy.FormatError(
           "'{}' cannot be used as tag name: ".format(fieldname)+
           "it is the name of a method or attribute of the line")
